@@ -95,6 +95,30 @@ Definition from_dt (k: tkind) (d: dt) : text :=
   ++ (match k with GenT => 46 :: dec3 (us d / 1000) | UtcT => [] end)   (* '.%d' % (microsecond // 1000) *)
   ++ zone_text (off d).
 
+(* fromDateTime's offset text BEFORE fix F11, kept only to state what was wrong (finding F11):
+   seconds = dt.utcoffset().seconds  (the seconds field of a normalised timedelta: 0..86399,
+   never negative, so '-' is never written);  '%.2d%.2d' % (seconds // 3600, seconds % 3600) *)
+Definition pct2 (n: N) : text :=
+  if n <? 100 then d2 n
+  else if n <? 1000 then [dg (n / 100); dg (n / 10); dg n]
+  else d4 n.
+Definition zone_text_unfixed (o: option Z) : text :=
+  match o with
+  | None => [90]
+  | Some z =>
+      if Z.eqb z 0 then [90]
+      else let seconds := Z.to_N ((z * 60) mod 86400) in
+           43 :: pct2 (seconds / 3600) ++ pct2 (seconds mod 3600)
+  end.
+Definition from_dt_unfixed (k: tkind) (d: dt) : text :=
+  (match k with GenT => d4 (yr d) | UtcT => d2 (yr d mod 100) end)
+  ++ d2 (mo d) ++ d2 (dy d) ++ d2 (hh d) ++ d2 (mi d) ++ d2 (ss d)
+  ++ (match k with GenT => 46 :: dec3 (us d / 1000) | UtcT => [] end)
+  ++ zone_text_unfixed (off d).
+(* the class of offsets on which the unfixed text was right *)
+Definition f11_free (o: option Z) : bool :=
+  match o with None => true | Some z => Z.eqb z 0 || (Z.ltb 0 z && Z.eqb (z mod 60) 0) end.
+
 (* ---- datetime.strptime(text, '%Y%m%d%H%M%S' | '%y%m%d%H%M%S') ----
    The format compiles to \d\d\d\d (or \d\d) followed by five groups that take two characters
    or, failing that, one (%d also a space and a digit); the whole text must be consumed.
@@ -220,17 +244,22 @@ Definition trim (s: text) : text :=
       end
   end.
 
+Definition time_enc_body (min_len max_len: N) (s: text) : res text :=
+  if has 43 s || has 45 s then Err EMalformed
+  else if negb (last s 0 =? 90) then Err EMalformed
+  else if has 44 s then Err EMalformed
+  else let s' := if has 46 s then trim s else s in
+       let n := N.of_nat (length s') in
+       if (min_len <? n) && (n <? max_len) then Ok s' else Err EMalformed.
+
 Definition time_enc (min_len max_len: N) (s: text) : res text :=
   match s with
   | [] => Err (ECrash IndexError)                                (* numbers[-1] *)
-  | _ =>
-      if has 43 s || has 45 s then Err EMalformed
-      else if negb (last s 0 =? 90) then Err EMalformed
-      else if has 44 s then Err EMalformed
-      else let s' := if has 46 s then trim s else s in
-           let n := N.of_nat (length s') in
-           if (min_len <? n) && (n <? max_len) then Ok s' else Err EMalformed
+  | _ => time_enc_body min_len max_len s
   end.
+
+(* the value is not in UTC as far as the encoder can tell: a sign somewhere, or no final Z *)
+Definition non_utc (s: text) : bool := has 43 s || has 45 s || negb (last s 0 =? 90).
 
 (* MIN_LENGTH / MAX_LENGTH as found in the regenerated codec table *)
 Definition time_limits (tbl: list (tkey * enc_codec * enc_flags)) (k: tkind) : option (N * N) :=
@@ -258,6 +287,9 @@ Fixpoint zeros_only_trailing (n: nat) (l: text) : bool :=
    longer fraction survives.  [no_far_trailing_zero frac] = not that case. *)
 Definition no_far_trailing_zero (l: text) : bool :=
   Nat.leb (length l) 4 || negb (last l 0 =? 48).
+
+(* the fraction digits of a string ending in Z: what lies between the first '.' and the Z *)
+Definition frac_of (s: text) : text := removelast (snd (split_at 46 s)).
 
 (* what the loop makes of the fraction digits *)
 Definition squeeze (l: text) : text := filter (fun c => negb (c =? 48)) (firstn 4 l) ++ skipn 4 l.
